@@ -38,17 +38,19 @@ import (
 )
 
 type ctrlOp struct {
-	Kind    string          `json:"kind"`
-	Svc     int             `json:"svc,omitempty"`
-	Spec    *vw.SvcSpec     `json:"spec,omitempty"`
-	Cluster *vw.ClusterSpec `json:"cluster,omitempty"`
-	Pick    int             `json:"pick,omitempty"`
-	Fail    []bool          `json:"fail,omitempty"`
-	Perm    []int           `json:"perm,omitempty"`
-	Mode    string          `json:"mode,omitempty"`  // crash: between | before-write | after-write
-	Early   []int           `json:"early,omitempty"` // crash: services whose events arrive before the first full sync
-	PoolPos int             `json:"pool_pos,omitempty"`
-	Settle  bool            `json:"settle,omitempty"` // crash: run the new instance to quiescence at once
+	Kind     string          `json:"kind"`
+	Svc      int             `json:"svc,omitempty"`
+	Spec     *vw.SvcSpec     `json:"spec,omitempty"`
+	Cluster  *vw.ClusterSpec `json:"cluster,omitempty"`
+	Pick     int             `json:"pick,omitempty"`
+	Fail     []bool          `json:"fail,omitempty"`
+	ReadFail []bool          `json:"read_fail,omitempty"` // crash / failwrites: outcomes of the next Gets of a Service (true = the read fails)
+	ListFail []bool          `json:"list_fail,omitempty"` // crash / failwrites: outcomes of the next Lists of Services
+	Perm     []int           `json:"perm,omitempty"`
+	Mode     string          `json:"mode,omitempty"`  // crash: between | before-write | after-write
+	Early    []int           `json:"early,omitempty"` // crash: services whose events arrive before the first full sync
+	PoolPos  int             `json:"pool_pos,omitempty"`
+	Settle   bool            `json:"settle,omitempty"` // crash: run the new instance to quiescence at once
 }
 
 type ctrlCase struct {
@@ -197,6 +199,9 @@ func genCtrlCase(rt *rapid.T, o ctrlGenOpts) ctrlCase {
 			cur = n
 			c.Ops = append(c.Ops, ctrlOp{Kind: "pools", Cluster: &n})
 			cr := ctrlOp{Kind: "crash", Mode: "between", Perm: genPerm(rt, len(live), "crashPerm"), Fail: rapid.SliceOfN(rapid.Bool(), 1, 3).Draw(rt, "macroFail")}
+			if rapid.Bool().Draw(rt, "macroListFail") {
+				cr.ListFail = []bool{true}
+			}
 			c.Ops = append(c.Ops, cr)
 			for j, m := 0, rapid.IntRange(1, 4).Draw(rt, "macroSteps"); j < m; j++ {
 				if rapid.Bool().Draw(rt, "macroTouch") {
@@ -221,9 +226,21 @@ func genCtrlCase(rt *rapid.T, o ctrlGenOpts) ctrlCase {
 			if o.Faults && rapid.IntRange(0, 2).Draw(rt, "crashFail") == 0 {
 				op.Fail = rapid.SliceOfN(rapid.Bool(), 1, 4).Draw(rt, "failAfterRestart")
 			}
+			if o.Faults && rapid.IntRange(0, 2).Draw(rt, "crashReadFail") == 0 {
+				op.ReadFail = rapid.SliceOfN(rapid.Bool(), 1, 3).Draw(rt, "readFailAfterRestart")
+			}
+			if o.Faults && rapid.IntRange(0, 2).Draw(rt, "crashListFail") == 0 {
+				op.ListFail = rapid.SliceOfN(rapid.Bool(), 1, 2).Draw(rt, "listFailAfterRestart")
+			}
 		case k <= 29 && o.Faults:
 			op.Kind = "failwrites"
-			op.Fail = rapid.SliceOfN(rapid.Bool(), 1, 4).Draw(rt, "fail")
+			if fr := rapid.IntRange(0, 5).Draw(rt, "failReads"); fr == 0 {
+				op.ReadFail = rapid.SliceOfN(rapid.Bool(), 1, 3).Draw(rt, "readFail")
+			} else if fr == 1 {
+				op.ListFail = rapid.SliceOfN(rapid.Bool(), 1, 2).Draw(rt, "listFail")
+			} else {
+				op.Fail = rapid.SliceOfN(rapid.Bool(), 1, 4).Draw(rt, "fail")
+			}
 		default:
 			op.Kind = "settle"
 		}
@@ -245,37 +262,39 @@ type quiescent struct {
 }
 
 type sim struct {
-	w       *vw.World
-	cl      vw.ClusterSpec // CRs in the store
-	ctrlCl  vw.ClusterSpec // CRs as of the last configuration the controller accepted
-	hasCfg  bool
-	specs   map[string]vw.SvcSpec
-	idx     map[string]int
-	order   []string
-	ever    map[string]bool
-	last    map[string]vw.SvcSpec // spec each service had when its handler last ran
-	c       *controller
-	lis     *k8s.Listener
-	svcRec  *controllers.ServiceReconciler
-	poolRec *controllers.PoolReconciler
-	reload  chan event.GenericEvent
-	pending []string
-	writes  map[string]int
-	fail    []bool
-	crash   string
-	tr      *vw.Trace
-	j       judgeSet
-	viol    *vw.Violation
-	lastQ   *quiescent
-	steps   int
-	faulted bool
-	touched map[string]bool // services whose spec was written since the last quiescence snapshot
-	exempt  map[string]bool // victims of a listed known finding since the last quiescence snapshot
+	w             *vw.World
+	cl            vw.ClusterSpec // CRs in the store
+	ctrlCl        vw.ClusterSpec // CRs as of the last configuration the controller accepted
+	hasCfg        bool
+	specs         map[string]vw.SvcSpec
+	idx           map[string]int
+	order         []string
+	ever          map[string]bool
+	last          map[string]vw.SvcSpec // spec each service had when its handler last ran
+	c             *controller
+	lis           *k8s.Listener
+	svcRec        *controllers.ServiceReconciler
+	poolRec       *controllers.PoolReconciler
+	reload        chan event.GenericEvent
+	pending       []string
+	writes        map[string]int
+	fail          []bool
+	readFail      []bool
+	listFail      []bool
+	crash         string
+	tr            *vw.Trace
+	j             judgeSet
+	viol          *vw.Violation
+	lastQ         *quiescent
+	steps         int
+	faulted       bool
+	touched       map[string]bool // services whose spec was written since the last quiescence snapshot
+	exempt        map[string]bool // victims of a listed known finding since the last quiescence snapshot
 	restartOp     ctrlOp
 	pendingBefore bool
 	sinceRestart  map[string]bool         // services written / made inadmissible since the restart
-	recR    map[string][]netip.Addr // during a restart: the statuses at the crash
-	thefts  map[string]bool         // during a restart: victim -> the service that took its recorded address had a record itself
+	recR          map[string][]netip.Addr // during a restart: the statuses at the crash
+	thefts        map[string]bool         // during a restart: victim -> the service that took its recorded address had a record itself
 }
 
 func (s *sim) setViol(v *vw.Violation) {
@@ -406,6 +425,22 @@ func (s *sim) boot() {
 	s.c = &controller{ips: allocator.New(func(string) {})}
 	s.c.client = &fakeK8s{s}
 	s.hasCfg = false
+	s.w.ServiceReadFault = func(kind string) error {
+		q := &s.readFail
+		if kind == "list" {
+			q = &s.listFail
+		}
+		if len(*q) == 0 {
+			return nil
+		}
+		f := (*q)[0]
+		*q = (*q)[1:]
+		if f {
+			s.tr.Class("service-" + kind + "-failed")
+			return errors.New("verif: injected read failure")
+		}
+		return nil
+	}
 	s.lis = &k8s.Listener{
 		ServiceChanged: func(l log.Logger, name string, svc *v1.Service, eps []discovery.EndpointSlice) controllers.SyncState {
 			pre := s.holders(name)
@@ -1095,6 +1130,8 @@ func (s *sim) restart(op ctrlOp) {
 	s.recR, s.thefts, s.sinceRestart = R, map[string]bool{}, map[string]bool{}
 	s.crash = ""
 	s.fail = append([]bool(nil), op.Fail...) // status writes failing during the first passes of the new instance
+	s.readFail = append([]bool(nil), op.ReadFail...)
+	s.listFail = append([]bool(nil), op.ListFail...)
 	s.boot()
 	s.w.PermuteServices(op.Perm)
 	if len(op.Perm) == len(s.w.Services) {
@@ -1263,6 +1300,8 @@ func runCtrl(c ctrlCase, tr *vw.Trace, j judgeSet) *vw.Violation {
 			}
 		case "failwrites":
 			s.fail = append(s.fail, op.Fail...)
+			s.readFail = append(s.readFail, op.ReadFail...)
+			s.listFail = append(s.listFail, op.ListFail...)
 		case "settle":
 			crashed = !quiesce(label)
 		case "crash":
@@ -1322,7 +1361,9 @@ func TestVerifC02Ctrl(t *testing.T) {
 
 func TestVerifC03Ctrl(t *testing.T) {
 	vw.Run(t, vw.Options{Property: "C03", Engine: "controller", Rule: ctrlRule + "; at every quiescence each service whose spec did not change and whose previous addresses are still admissible must hold the same set; two forced re-syncs must write at most once, then never; non-trivial = an unchanged address-holding service was checked after a perturbing event", Assumptions: ctrlAssumptions},
-		func(rt *rapid.T) ctrlCase { return genCtrlCase(rt, ctrlGenOpts{Sched: true, Crash: true, Faults: true}) },
+		func(rt *rapid.T) ctrlCase {
+			return genCtrlCase(rt, ctrlGenOpts{Sched: true, Crash: true, Faults: true})
+		},
 		func(c ctrlCase, tr *vw.Trace) *vw.Violation {
 			v := runCtrl(c, tr, judgeSet{C03: true})
 			if tr.Has("innocent-bystander-checked") && (tr.Has("service-updated") || tr.Has("pool-edit") || tr.Has("release-by-delete")) {
@@ -1334,8 +1375,12 @@ func TestVerifC03Ctrl(t *testing.T) {
 
 func TestVerifC06Ctrl(t *testing.T) {
 	vw.Run(t, vw.Options{Property: "C06", Engine: "controller", Rule: ctrlRule + ", crashes (between events, inside a handler just before / just after the status write) followed by a restart with a generated service list order, early events and pool-reconcile position, and finite sequences of failing status writes; non-trivial = crash with recorded and pending services, or recovery from failed writes", Assumptions: ctrlAssumptions},
-		func(rt *rapid.T) ctrlCase { return genCtrlCase(rt, ctrlGenOpts{Sched: true, Crash: true, Faults: true}) },
-		func(c ctrlCase, tr *vw.Trace) *vw.Violation { return runCtrl(c, tr, judgeSet{C06: true, C01: true, Stab: true}) })
+		func(rt *rapid.T) ctrlCase {
+			return genCtrlCase(rt, ctrlGenOpts{Sched: true, Crash: true, Faults: true})
+		},
+		func(c ctrlCase, tr *vw.Trace) *vw.Violation {
+			return runCtrl(c, tr, judgeSet{C06: true, C01: true, Stab: true})
+		})
 }
 
 func TestVerifC07Ctrl(t *testing.T) {
